@@ -20,7 +20,9 @@ class Socket(base_socket.BaseSocket):
             raise exceptions.QueueEmpty()
         if packets == [None]:
             return []
-        while True:
+        # do not put more packets in a payload than this package's client is
+        # willing to decode
+        while len(packets) < payload.Payload.max_decode_packets:
             try:
                 pkt = self.queue.get(block=False)
                 self.queue.task_done()
